@@ -25,7 +25,13 @@ TIE_A = ["Tables.export", "code:fuzzylite.rule.Rule.parse",
          "code:fuzzylite.exporter.FllExporter.activation", "code:fuzzylite.exporter.FllExporter.defuzzifier",
          "code:fuzzylite.exporter.FllExporter.rule", "code:fuzzylite.exporter.FllExporter.variable",
          "code:fuzzylite.exporter.FllExporter.input_variable", "code:fuzzylite.exporter.FllExporter.output_variable",
-         "code:fuzzylite.exporter.FllExporter.rule_block", "code:fuzzylite.exporter.FllExporter.engine"]
+         "code:fuzzylite.exporter.FllExporter.rule_block", "code:fuzzylite.exporter.FllExporter.engine",
+         # the import side of term parameters (theorems `code_*` in the block "Tie A: term parameters" of Props/C14.lean)
+         "code:fuzzylite.library.to_float", "code:fuzzylite.term.Term._parse", "code:fuzzylite.term.Triangle.configure", "code:fuzzylite.term.Trapezoid.configure",
+         "code:fuzzylite.term.Constant.configure", "code:fuzzylite.term.Linear.configure", "code:fuzzylite.term.Discrete.configure",
+         "code:fuzzylite.term.Function.configure", "code:fuzzylite.operation.Operation.as_identifier",
+         "code:fuzzylite.operation.Operation.strip_comments", "code:fuzzylite.operation.Operation.scale",
+         "code:fuzzylite.operation.Operation.bound"]
 TIE_A += [f"code:fuzzylite.importer.FllImporter.{m}" for m in (
     "extract_key_value", "extract_value", "boolean", "range", "tnorm", "snorm", "activation", "defuzzifier", "term", "rule",
     "input_variable", "output_variable", "rule_block", "_process", "engine")]
@@ -649,6 +655,14 @@ def correspond(ctx):
         st.count("corpus")
         if not ok:
             violation(case, detail, f"corpus case {os.path.basename(path)}: {detail}")
+        elif case.get("kind") == "text" and case.get("model"):
+            # a text on which the model once disagreed with the implementation: compared with the model again
+            with fl.settings.context(decimals=int(case["decimals"])), np.errstate(all="ignore"):
+                try:
+                    real = ("ok", export(fl.FllImporter().from_string(case["text"])))
+                except Exception as ex:  # noqa: BLE001
+                    real = ("err", kind_of(ex))
+            ask(["fll-cycle", int(case["decimals"]), tol, C.hexs(case["text"])], ("cycle", dict(case, label=case.get("label", "corpus")), real))
     # ---- engines
     texts = []
     seen_classes = set()
